@@ -47,9 +47,11 @@ def inverted_limits_refused(ctx):
     ok = False
     for n in body_walk(cl.node):
         if isinstance(n, ast.If) and any(d and d.endswith('RangeError') for d, _ in raised_names(n.body)):
-            for l, op, r in compare_ops(n.test):
-                if op == '<' and l.startswith('max') and r.startswith('min'):
-                    ok = True
+            conj = n.test.values if isinstance(n.test, ast.BoolOp) and isinstance(n.test.op, ast.And) else [n.test]      # `both given and min_ > max_`
+            for part in conj:
+                for l, op, r in compare_ops(part):
+                    if op == '<' and l.startswith('max') and r.startswith('min'):
+                        ok = True
     if not ok:
         # the refusal may be reported through a message variable raised at the end: the side of the test on which max < min never
         # completes normally (flags bound to literals are followed)
